@@ -127,8 +127,9 @@ func TestProp_DataURI(t *testing.T) {
 				rapid.Custom(func(t *rapid.T) string { return token(t, "type", 1, 6) + "/" + token(t, "subtype", 1, 8) })).Draw(t, "mediatype")
 			for n := rapid.IntRange(0, 2).Draw(t, "nparams"); n > 0; n-- {
 				k, v := token(t, "key", 1, 6), token(t, "value", 1, 6)
-				if strings.EqualFold(v, "base64") {
-					v = "v" // a VALUE spelled base64 in front of the comma is indistinguishable from the marker
+				if rapid.IntRange(0, 5).Draw(t, "reservedvalue") == 0 {
+					// the marker word as the VALUE of a parameter (it stands behind '=', not behind ';')
+					v = rapid.SampledFrom([]string{"base64", "base64", "base6", "base644"}).Draw(t, "rvalue")
 				}
 				if rapid.IntRange(0, 5).Draw(t, "reservedkey") == 0 {
 					// the marker word as the NAME of an ordinary parameter (it is followed by '=', not by ';' or ',')
